@@ -30,7 +30,7 @@ Definition unpack_ty (t : ty) : list sfield :=
 
 (* isStructishTypedField: the struct type below at most one pointer / array /
    slice.  Opaque TextUnmarshaler structs count (they are excluded from
-   recursion separately when they are the field type or its pointee). *)
+   recursion separately, also as elements of a slice or array). *)
 Definition structish_inner (t : ty) : option ty :=
   match t with
   | TStruct _ _ | TTextU _ _ => Some t
@@ -67,13 +67,10 @@ Definition recurse_out (m : mangler) (f : sfield) : outcome (sfield * (sfield * 
   | None => Ok (f, (f, None))
   | Some inner =>
       if negb (should_recurse m) then Ok (f, (f, None))
-      else if either_implements_tu (sf_ty f) then Ok (f, (f, None))
-      else match inner with
-           | TTextU _ _ => Panic 250   (* []T / [n]T of an opaque TextUnmarshaler struct: not modelled *)
-           | _ =>
-               r <- sub m inner ;;
-               Ok (SF (sf_name f) (sf_tags f) (sf_anon f) (rewrap (sf_ty f) (fst r)), (f, Some (snd r)))
-           end
+      else if either_implements_tu inner then Ok (f, (f, None))   (* asked of the stripped struct type (fix: commit) *)
+      else
+        r <- sub m inner ;;
+        Ok (SF (sf_name f) (sf_tags f) (sf_anon f) (rewrap (sf_ty f) (fst r)), (f, Some (snd r)))
   end.
 
 Fixpoint recurse_outs (m : mangler) (outs : list sfield) : outcome (list (sfield * (sfield * option xstate))) :=
